@@ -26,10 +26,26 @@ belong anywhere else.
 
 from __future__ import absolute_import
 
-from gevent import socket
+from gevent import socket, ssl
 
 __all__ = ['build_ipv4_socket_creator', 'create_connection_ipv4',
-           'create_listeners']
+           'create_listeners', 'create_default_context']
+
+
+def create_default_context():
+    """Builds the client-side TLS context used when none is configured. It is
+    what :func:`ssl.create_default_context` would produce, but made from
+    gevent's cooperative :class:`~gevent.ssl.SSLContext`: the function of that
+    name exported by :mod:`gevent.ssl` is the standard library's and returns a
+    standard library context, whose handshake blocks the whole process (and
+    with it every timeout) until the peer answers.
+
+    :rtype: :py:class:`~ssl.SSLContext`
+
+    """
+    context = ssl.SSLContext(ssl.PROTOCOL_TLS_CLIENT)
+    context.load_default_certs()
+    return context
 
 
 def build_ipv4_socket_creator(only_ports=None):
